@@ -30,6 +30,7 @@ def main():
         meta = json.load(open(os.path.join(d, "meta.json")))
         pid = meta["property"]
         try:
+            clean_demo = sh(f"cd /repo && timeout 300 /venv/bin/python {d}/demo.py")
             r = sh(f"git -C /repo apply {d}/patch.diff")
             if r.returncode != 0:
                 r = sh(f"cd /repo && patch -p1 -s --no-backup-if-mismatch < {d}/patch.diff")
@@ -52,9 +53,14 @@ def main():
                         pass
                 res[p] = {"exit": c.returncode, "violation_lines": len(viol), "first_reported": first,
                           "monitors": mons[0] if mons else "", "summary": (c.stdout.strip().splitlines() or [""])[-1][:200]}
-            meta["caught_by"] = {"demo_exit_with_change": demo.returncode, "checks": res}
+            meta["caught_by"] = {"repo_head": sh("git -C /repo log --format=%h -1").stdout.strip(),
+                                 "demo_exit_unchanged_tree": clean_demo.returncode,
+                                 "demo_exit_with_change": demo.returncode, "checks": res}
             own = res[pid]
-            rows.append((sid, pid, "CAUGHT" if own["exit"] == 1 else f"exit {own['exit']}",
+            status = "CAUGHT" if own["exit"] == 1 else f"exit {own['exit']}"
+            if clean_demo.returncode != 0 or demo.returncode == 0:
+                status += f" (demo: unchanged exit {clean_demo.returncode}, changed exit {demo.returncode})"
+            rows.append((sid, pid, status,
                          "; ".join(f"{p}: exit {v['exit']} {v['first_reported']} {v['monitors'][:120]}" for p, v in res.items())))
         finally:
             clean()
